@@ -91,12 +91,6 @@ theorem C02_unsuback3 (pw : Nat) (p : Unsuback3) (hpw : pw = 2 ∨ pw = 4) (h : 
 
 example : allOk (Unsuback3.checks 4 ⟨4, 1⟩) = true := by decide
 
-/-- what the v3.1.1 UNSUBACK *builder* produces for 32-bit ids (`remaining_length = 2`) is not
-    well-formed: `size()` = 4, six bytes serialised (reported by the run as `C02 size@v3.unsuback`) -/
-theorem C02_unsuback3_builder_u32_defect :
-    allOk (Unsuback3.checks 4 ⟨2, 1⟩) = false ∧ Unsuback3.size ⟨2, 1⟩ = 4 ∧ (Unsuback3.encode 4 ⟨2, 1⟩).length = 6 := by
-  decide
-
 theorem C02_suback3 (pw : Nat) (p : Suback3) (hpw : pw = 2 ∨ pw = 4) (h : allOk (p.checks pw) = true) :
     Suback3.parse pw (p.body pw) = .ok p (p.body pw).length ∧ p.encode pw = 0x90 :: vbiEnc p.remLen ++ p.body pw
       ∧ p.size = (p.encode pw).length ∧ p.remLen = (p.body pw).length := Suback3.roundtrip pw p hpw h
@@ -192,14 +186,6 @@ theorem C02_connect5 (p : Connect5) (h : allOk p.checks = true) :
       ∧ p.size = p.encode.length ∧ p.remLen = p.body.length := Connect5.roundtrip p h
 
 example : allOk (Connect5.checks ⟨29, 0x06, 60, 3, [.u16 33 5], [0x63], 5, [.u32 24 1], [0x74], [1], [], []⟩) = true := by
-  decide
-
-/-- `ConnectBuilder::will_props(..)` without `will_message(..)` yields a packet that is *not*
-    well-formed (`will_props_need_will`): the will properties are stored and never serialised,
-    so `parse (encode p) ≠ p` (reported by the run as `C02 equal@v5.connect`). -/
-theorem C02_connect5_builder_will_props_defect :
-    let p : Connect5 := ⟨13, 0x02, 0, 0, [], [], 5, [.u32 24 1], [], [], [], []⟩
-    allOk p.checks = false ∧ Connect5.parse (p.encode.drop 2) = .ok { p with willPropLen := 0, willProps := [] } 13 := by
   decide
 
 /-! ## all 29 kinds at once -/
